@@ -36,12 +36,15 @@ Fail(s, e) == R(s, <<E(e)>>, TRUE)
 LastN(q, n) == IF Len(q) <= n THEN q ELSE SubSeq(q, Len(q) - n + 1, Len(q))
 
 (* ---- user functions as tables / codes ---------------------------------------------- *)
-\* comparers: 0 equality, 1 same parity, 2 never equal, 3 always equal, 4 raises
+\* comparers: 0 equality, 1 same parity, 2 never equal, 3 always equal, 4 raises,
+\* 5 "near" (|a - b| <= 1: symmetric but NOT transitive - an equivalence relation cannot tell "compare with the
+\* last emitted element" from "compare with the previous input")
 CmpCodes == IF Faults THEN 0..4 ELSE 0..3
 Cmp(code, a, b) == CASE code = 0 -> IF a = b THEN 1 ELSE 0
                      [] code = 1 -> IF a % 2 = b % 2 THEN 1 ELSE 0
                      [] code = 2 -> 0
                      [] code = 3 -> 1
+                     [] code = 5 -> IF a - b <= 1 /\ b - a <= 1 THEN 1 ELSE 0
                      [] OTHER    -> 2
 \* binary accumulators: 0 (a+b)%K, 1 second, 2 first, 3 max, 4 (a+b)%K but raises when b is the last token
 AccCodes == IF Faults THEN 0..4 ELSE 0..3
@@ -77,6 +80,8 @@ ParamsOf(o) ==
                                                  -> [n : Counts]
     [] o = "element_at_or_default"               -> [n : Counts, d : Vals]
     [] o \in {"distinct", "distinct_until_changed"} -> [f : Tables, cmp : CmpCodes]
+    \* identity key, non-transitive comparer (run with NVals >= 3)
+    [] o \in {"distinct_near", "distinct_until_changed_near"} -> [f : {[v \in Vals |-> v]}, cmp : {5}]
     [] o = "start_with"                          -> [a : UNION {[1..m -> Vals] : m \in 0..2}]
     [] o \in {"default_if_empty", "first_or_default", "last_or_default", "single_or_default", "contains"}
                                                  -> [d : Vals]
@@ -131,14 +136,14 @@ Nx(o, p, s, v) ==
          ELSE (LET r == PIdx(p.p, v, s.c) IN
                CASE r = 2 -> Fail(s, "fn") [] r = 1 -> Drop([s EXCEPT !.c = s.c + 1])
                  [] OTHER -> Pass([s EXCEPT !.b = TRUE], v))
-    [] o = "distinct" ->
+    [] o \in {"distinct", "distinct_near"} ->
          (LET k == p.f[v] IN
           IF k = RAISE THEN Fail(s, "fn")
           ELSE LET hits == {j \in 1..Len(s.q) : Cmp(p.cmp, s.q[j], k) # 0}
                    first == IF hits = {} THEN 0 ELSE CHOOSE j \in hits : \A h \in hits : j <= h IN
                IF first = 0 THEN Pass([s EXCEPT !.q = Append(s.q, k)], v)
                ELSE IF Cmp(p.cmp, s.q[first], k) = 2 THEN Fail(s, "fn") ELSE Drop(s))
-    [] o = "distinct_until_changed" ->
+    [] o \in {"distinct_until_changed", "distinct_until_changed_near"} ->
          (LET k == p.f[v] IN
           IF k = RAISE THEN Fail(s, "fn")
           ELSE IF ~s.b THEN Pass([s EXCEPT !.b = TRUE, !.c = k], v)
